@@ -46,10 +46,17 @@ def prepare_work(files, features=''):
         lines = text.split('\n')
         body = []
         target = None
+        target_mod = None
         for ln in lines:
+            m = re.match(r'^//@inject_in\s+(\S+)\s+mod\s+(\w+)', ln)
+            if m:
+                target = m.group(1)
+                target_mod = m.group(2)
+                continue
             m = re.match(r'^//@inject\s+(\S+)', ln)
             if m:
                 target = m.group(1)
+                target_mod = None
                 continue
             m = re.match(r'^//@attr\s+(\S+)\s+fn\s+(\w+)(?:\s+nth=(\d+))?\s*:\s*(.*)$', ln)
             if m:
@@ -79,10 +86,21 @@ def prepare_work(files, features=''):
             p = os.path.join(dst, target)
             if not os.path.exists(p):
                 raise extract.Undecided('kani: injection target %s no longer exists' % target)
-            with open(p, 'a') as fh:
-                fh.write('\n// ---- injected by /verif/tools/kani_run.py from kani/harness/%s\n' % hf)
-                fh.write('\n'.join(body) + '\n')
-            log.append('append %s -> %s' % (hf, target))
+            if target_mod:
+                import rsparse
+                src = open(p).read()
+                mm = re.search(r'\bmod\s+%s\s*\{' % re.escape(target_mod), src)
+                if not mm:
+                    raise extract.Undecided('kani: module %s not found in %s' % (target_mod, target))
+                close = rsparse.match_delim(src, mm.end() - 1)
+                src = src[:close] + '\n// ---- injected by /verif/tools/kani_run.py from kani/harness/%s\n' % hf + '\n'.join(body) + '\n' + src[close:]
+                open(p, 'w').write(src)
+                log.append('insert %s -> %s (inside mod %s)' % (hf, target, target_mod))
+            else:
+                with open(p, 'a') as fh:
+                    fh.write('\n// ---- injected by /verif/tools/kani_run.py from kani/harness/%s\n' % hf)
+                    fh.write('\n'.join(body) + '\n')
+                log.append('append %s -> %s' % (hf, target))
     return dst, log
 
 
@@ -102,6 +120,10 @@ def parse_kani_output(out):
         for cm in re.finditer(r'Check \d+: (\S+)\n\s*- Status: (\w+)\n\s*- Description: "((?:[^"\\]|\\.|\n)*?)"\n\s*- Location: ([^\n]*)', text):
             if cm.group(2) in ('FAILURE', 'UNDETERMINED', 'UNREACHABLE') and cm.group(2) == 'FAILURE':
                 failed.append({'check': cm.group(1), 'description': cm.group(3), 'location': cm.group(4)})
+        if not failed:
+            # fall back to the summary block ("Failed Checks: <description>\n File: "...", line N, in <fn>")
+            for fm in re.finditer(r'Failed Checks: (.*?)\n\s*File: ([^\n]*)', text, re.S):
+                failed.append({'check': 'summary', 'description': fm.group(1).strip(), 'location': fm.group(2).strip()})
         nchecks = len(re.findall(r'- Status: ', text))
         nsucc = len(re.findall(r'- Status: SUCCESS', text))
         tm = re.search(r'Verification Time: ([\d.]+)s', text)
